@@ -128,7 +128,23 @@ def corpus():
         {'target': t, 'spec': ['Switch', [[binder('S(k=)', 'key'), R('S.k', 1)]], None], 'scope': [], 'repeat': True},
         {'target': t, 'spec': ['Tuple', [['Switch', [[binder('S(k=)', 'key'), NEUTRAL]], None], R('S.k', 1)]], 'scope': [], 'repeat': True},
         {'target': t, 'spec': ['Tuple', [R('S.u', 1), binder('S(k=)', 'm'), ['Spec', R('S.k', 2), [['k', 'spec-scope']]], R('S.k', 3)]], 'scope': [['u', 'user']], 'repeat': True},
-    ]
+    ] + [{'target': t, 'spec': sp, 'scope': [], 'repeat': True} for sp in argument_binders()]
+
+
+def argument_binders():
+    """a binder in ARGUMENT position (a default=, the value of another S(a=..), a Switch default) is evaluated in a scope of its own:
+    what it binds is not visible to the later steps of the chain that owns the argument, and does not shadow an outer binding"""
+    R = lambda kind, n: reader(kind, n)  # noqa: E731
+    miss = ['Str', 'zz__missing']
+    out = []
+    for b in (binder('A.k', None), binder('S(k=)', 'arg'), binder('Let', 'arg')):
+        out.append(['Tuple', [['Coalesce', [miss], b, None, None, None], R('S.k', 1)]])
+        out.append(['Pipe', [['Or', [miss], b, 'ctor'], R('S.k', 1)]])
+        out.append(['Tuple', [['Switch', [[miss, NEUTRAL]], b], R('S.k', 1)]])
+        out.append(['Tuple', [['Bind', [['a', b]]], R('S.k', 1)]])
+        out.append(['Tuple', [binder('S(k=)', 'outer'), ['Coalesce', [miss], b, None, None, None], R('S.k', 1)]])
+        out.append(['Tuple', [['Bind', [['a', b], ['j', ['Coalesce', [['T', 'S', [['.', ['Str', 'k']]]]], ['Lit', 'MISSING'], None, None, None]]]], R('S.j', 1)]])
+    return out
 
 
 BINDERS = ['S(k=)', 'S(k=)', 'A.k', 'A.globals.k', 'Let', 'S(k=,j=S.k)', 'Let(k=,j=S.k)']
@@ -239,6 +255,14 @@ def run_impl(case):
         out2 = pyspec.run_glom(case)
         out['second_run_same'] = (out2.get('ok') == out.get('ok') and out2.get('raise') == out.get('raise') and out2['log'] == out['log'])
     # the other public entry points: values passed through scope= (to the call, to the Spec, to both) are readable the same way
+    if case.get('scope'):
+        # one Spec object, first run with the caller's scope, then without: nothing of the first call stays in the Spec
+        o3 = pyspec.run_glom(case, 'spec-reuse')
+        base = pyspec.run_glom(dict(case, scope=[]))
+        if (o3.get('ok'), o3.get('raise'), o3['log']) != (base.get('ok'), base.get('raise'), base['log']):
+            out['entry_diff'] = 'the same Spec object run with scope= and then without: %r / log %r, without any scope %r / log %r' % (
+                o3.get('ok', o3.get('raise')), o3['log'], base.get('ok', base.get('raise')), base['log'])
+            return out
     for entry in ('spec', 'spec-split', 'spec-own', 'glommer'):
         if entry == 'glommer' and case.get('scope'):
             continue                                   # Glommer.glom passes its own scope: no scope= of the caller's
